@@ -60,10 +60,16 @@ type req struct {
 	Sha     string `json:"sha,omitempty"`
 	Version int    `json:"version,omitempty"`
 	Variant int    `json:"variant,omitempty"`
+	// the body is well-formed JSON with a member of the wrong type ("variables":"oops"): the transport refuses it
+	// before any extension sees it - such a request is sent in between and is no part of the model's history
+	Undecodable bool `json:"undecodable,omitempty"`
 }
 
 func (r req) body() string {
 	m := map[string]any{}
+	if r.Undecodable {
+		m["variables"] = "oops"
+	}
 	if r.Text != "" {
 		m["query"] = r.Text
 	}
@@ -262,6 +268,18 @@ func Run(c *gen.Ctx) error {
 		}
 		o, p := runHistory(capacity, reqs, probeKeys)
 		var rq, ob, pr []string
+		all, allObs := reqs, o
+		reqs, o = nil, nil
+		for i := range all {
+			if all[i].Undecodable {
+				if allObs[i].Exec != "" || allObs[i].Err != "other" {
+					meta.Direct = append(meta.Direct, gen.DirectFinding{Signature: "undecodable-request-reached-the-pipeline",
+						What: fmt.Sprintf("a POST body with a member of the wrong JSON type was answered %+v instead of being refused by the transport", allObs[i]), Replay: apqCase{Cap: capacity, Reqs: all, Obs: allObs}})
+				}
+				continue
+			}
+			reqs, o = append(reqs, all[i]), append(o, allObs[i])
+		}
 		for i := range reqs {
 			rq = append(rq, reqs[i].coq())
 			kinds[reqs[i].Ext+map[bool]string{true: "+text", false: ""}[reqs[i].Text != ""]]++
@@ -293,7 +311,7 @@ func Run(c *gen.Ctx) error {
 		}
 		cf.Add(fmt.Sprintf("{| ac_cap := %s; ac_hash := %s; ac_reqs := %s; ac_obs := %s; ac_probe := %s |}",
 			capTerm, gen.List(hashTbl), gen.List(rq), gen.List(ob), gen.List(pr)))
-		descr = append(descr, apqCase{Cap: capacity, Reqs: reqs, Obs: o, Probe: p})
+		descr = append(descr, apqCase{Cap: capacity, Reqs: all, Obs: allObs, Probe: p})
 		lens[len(reqs)]++
 		if nontrivial {
 			b, _ := json.Marshal(reqs)
@@ -356,6 +374,19 @@ func Run(c *gen.Ctx) error {
 	twin = append(twin, req{Text: padTexts[0], Ext: "ok", Sha: sha(padTexts[0]), Version: 1}, req{Text: texts[0], Ext: "ok", Sha: sha(texts[0]), Version: 1},
 		req{Ext: "ok", Sha: sha(texts[0]), Version: 1}, req{Ext: "ok", Sha: sha(padTexts[0]), Version: 1})
 	rec2(nil, 3)
+	// requests the transport refuses (well-formed JSON, a member of the wrong type) in between: whatever text or
+	// extension they carry must leave no trace - every history up to length 3 over refused bodies carrying a text /
+	// a text with its hash, honest registrations, hash-only and text-only requests
+	twin = []req{
+		{Text: texts[1], Ext: "none", Undecodable: true},
+		{Text: texts[1], Ext: "ok", Sha: sha(texts[1]), Version: 1, Undecodable: true},
+		{Ext: "ok", Sha: sha(texts[0]), Version: 1, Undecodable: true},
+		{Text: texts[0], Ext: "ok", Sha: sha(texts[0]), Version: 1},
+		{Ext: "ok", Sha: sha(texts[0]), Version: 1},
+		{Ext: "ok", Sha: sha(texts[1]), Version: 1},
+		{Text: texts[2], Ext: "none"},
+	}
+	rec2(nil, 3)
 	exhaustive := cf.Len()
 	// random long histories with eviction
 	nrand := 300
@@ -377,7 +408,7 @@ func Run(c *gen.Ctx) error {
 	}
 	meta.Evaluations = cf.Len()
 	meta.DistinctNontrivial = len(distinct)
-	meta.Rule = "request histories against handler.Server+POST+AutomaticPersistedQuery: exhaustive up to length 2 over a 19-form alphabet (3 texts x {text only, text+own hash, text+another text's hash, text+garbage hash, hash only, garbage hash only, malformed extension, wrong version, no query}) with MapCache and LRU(1); exhaustive length 3 over a 9-form core alphabet; random histories of length 4..12 with MapCache/LRU(1..3); every history up to length 3 over two texts that differ only in white space inside a string value x {text only, text + own hash, hash only}; every history up to length 3 over three white-space-padded forms of a text sent with the hash of the unpadded text, honest registrations and hash-only requests. The server has a parsed-document cache (as NewDefaultServer installs); what is observed as executed is the executed DOCUMENT, mapped back to the text it is the parse of. Non-trivial = a history in which some hash-only request resolved to a text; distinct by (cache, request list)."
+	meta.Rule = "request histories against handler.Server+POST+AutomaticPersistedQuery: exhaustive up to length 2 over a 19-form alphabet (3 texts x {text only, text+own hash, text+another text's hash, text+garbage hash, hash only, garbage hash only, malformed extension, wrong version, no query}) with MapCache and LRU(1); exhaustive length 3 over a 9-form core alphabet; random histories of length 4..12 with MapCache/LRU(1..3); every history up to length 3 over two texts that differ only in white space inside a string value x {text only, text + own hash, hash only}; every history up to length 3 over three white-space-padded forms of a text sent with the hash of the unpadded text, honest registrations and hash-only requests; every history up to length 3 with requests the transport refuses (well-formed JSON bodies with a member of the wrong type, carrying texts and extensions) in between, which must leave no trace. The server has a parsed-document cache (as NewDefaultServer installs); what is observed as executed is the executed DOCUMENT, mapped back to the text it is the parse of. Non-trivial = a history in which some hash-only request resolved to a text; distinct by (cache, request list)."
 	meta.Samples = []any{descr[exhaustive-1], descr[len(descr)-1]}
 	meta.Distribution = map[string]any{"exhaustive_cases": exhaustive, "random_cases": nrand, "request_forms": kinds, "observed_outcomes": outcomes, "history_lengths": lens}
 	concurrentClients(c, gen.NewRand(c.Seed+23), meta)
